@@ -292,6 +292,17 @@ fn main() {
             else { let x = Fr::from_okm(GenericArray::from_slice(&b)); let r = x.into_repr(); let mut s = String::from("0x"); for i in (0..4).rev() { s.push_str(&format!("{:016x}", r.0[i])); } out.push(s); }
         }
         "prime_field_api" => { if e.s("field") == "fq" { prime_field_api!(Fq, FqRepr, 6, e, out, tag) } else { prime_field_api!(Fr, FrRepr, 4, e, out, tag) } }
+        "map" => {
+            // stand-in `map_to_curve_api` (C14): map2(u0, u1) against map(u0) + map(u1) (real addition), all three in the subgroup
+            macro_rules! mp { ($G:ident, $u0:expr, $u1:expr, $outp:ident) => {{
+                let a = <$G as MapToCurve<$G>>::map_to_curve(&$u0); let b = <$G as MapToCurve<$G>>::map_to_curve(&$u1);
+                let c = <$G as MapToCurve<$G>>::map2_to_curve(&$u0, &$u1);
+                let mut s = a; s.add_assign(&b);
+                tag = format!("{}|{}|{}", a.into_affine().in_subgroup(), b.into_affine().in_subgroup(), c.into_affine().in_subgroup());
+                for p in [a, b, c, s].iter() { let mut o = Vec::new(); $outp(p, &mut o); out.push(o.join(",")); }
+            }}; }
+            if e.s("g") == "g1" { mp!(G1, e.fq("u0"), e.fq("u1"), out_g1) } else { mp!(G2, e.fq2("u0"), e.fq2("u1"), out_g2) }
+        }
         "final_exp" => { match Bls12::final_exponentiation(&e.fq12("self")) { Some(y) => { tag = "some".into(); o12(&y, &mut out) } None => tag = "none".into() } }
         "fq2_misc" => {
             let a = e.fq2("a"); let b = e.fq2("b");
